@@ -739,6 +739,96 @@ def _propagate_field_reads(tree: ast.AST, computed: Set[str] = frozenset()):
     ast.fix_missing_locations(tree)
 
 
+def _propagate_element_reads(tree: ast.AST):
+    """`a = X[i]` (a plain local bound once; X, i plain names / constants / field reads; while a is live neither X nor the names of i are rebound,
+    nothing is stored into X[...] except through a, no mutating method is called on X): a is an alias of the element (a numpy row view, a list
+    element, a read of a scalar cell), so every use of a - also as the base of a store - is written X[i] and the assignment dropped."""
+    import copy as _copy
+    MUT = {"append", "add", "extend", "update", "remove", "pop", "insert", "sort", "clear", "discard", "fill", "setdefault", "resize", "reverse"}
+    for fn in [n for n in ast.walk(tree) if isinstance(n, (ast.FunctionDef, ast.AsyncFunctionDef))]:
+        a_ = fn.args
+        params = {x.arg for x in a_.args + a_.kwonlyargs + a_.posonlyargs} | ({a_.vararg.arg} if a_.vararg else set()) | ({a_.kwarg.arg} if a_.kwarg else set())
+        for _round in range(12):
+            stores: Dict[str, int] = {}
+            nested = set()
+            for n in ast.walk(fn):
+                if n is not fn and isinstance(n, (ast.FunctionDef, ast.AsyncFunctionDef, ast.Lambda, ast.ClassDef)):
+                    nested |= _names_in(n)
+                if isinstance(n, ast.Name) and isinstance(n.ctx, (ast.Store, ast.Del)):
+                    stores[n.id] = stores.get(n.id, 0) + 1
+                elif isinstance(n, (ast.Global, ast.Nonlocal)):
+                    for nm in n.names:
+                        stores[nm] = 99
+            done = False
+            for node in ast.walk(fn):
+                for fld in ("body", "orelse", "finalbody"):
+                    blk = getattr(node, fld, None)
+                    if not isinstance(blk, list) or not blk or not isinstance(blk[0], ast.stmt):
+                        continue
+                    for k, st in enumerate(blk):
+                        if not (isinstance(st, ast.Assign) and len(st.targets) == 1 and isinstance(st.targets[0], ast.Name) and
+                                isinstance(st.value, ast.Subscript) and getattr(st, "ann", None) is None):
+                            continue
+                        a = st.targets[0].id
+                        X, idx = st.value.value, st.value.slice
+                        if not _plain_read(X) or isinstance(idx, ast.Slice):
+                            continue
+                        idx_parts = idx.elts if isinstance(idx, ast.Tuple) else [idx]
+                        if not all(_plain_read(p) or (isinstance(p, ast.UnaryOp) and isinstance(p.operand, ast.Constant)) for p in idx_parts):
+                            continue
+                        if a in params or a in nested or stores.get(a) != 1:
+                            continue
+                        used = _names_in(st.value)
+                        if a in used or "self" in used and False:
+                            continue
+                        rest = blk[k + 1:]
+                        if used & _stored_names(rest):
+                            continue
+                        inside = {id(x) for s in rest for x in ast.walk(s)}
+                        occ = [x for x in ast.walk(fn) if isinstance(x, ast.Name) and x.id == a and x is not st.targets[0]]
+                        if not occ or any(id(x) not in inside for x in occ):
+                            continue
+                        xt = ast.unparse(X)
+                        clash = False
+                        for s in rest:
+                            for x in ast.walk(s):
+                                # a store into X[...] (not through a) or a mutator called on X while a is live
+                                if isinstance(x, ast.Subscript) and isinstance(x.ctx, (ast.Store, ast.Del)) and ast.unparse(x.value) == xt:
+                                    clash = True
+                                if isinstance(x, ast.Subscript) and isinstance(x.ctx, (ast.Store, ast.Del)) and isinstance(x.value, ast.Subscript) and \
+                                        ast.unparse(x.value.value) == xt:
+                                    clash = True
+                                if isinstance(x, ast.Call) and isinstance(x.func, ast.Attribute) and x.func.attr in MUT and ast.unparse(x.func.value) == xt:
+                                    clash = True
+                                if isinstance(x, (ast.AugAssign,)) and isinstance(x.target, ast.Name) and x.target.id == a:
+                                    clash = True          # a op= v rebinds a (scalars): not an alias use
+                        if clash:
+                            continue
+                        val = st.value
+
+                        class R(ast.NodeTransformer):
+                            def visit_Name(self, n):
+                                if n.id == a:
+                                    new = _copy.deepcopy(val)
+                                    new.ctx = ast.Load()
+                                    return ast.copy_location(new, n)
+                                return n
+                        for s in rest:
+                            R().visit(s)
+                        del blk[k]
+                        if not blk:
+                            blk.append(ast.copy_location(ast.Pass(), st))
+                        done = True
+                        break
+                    if done:
+                        break
+                if done:
+                    break
+            if not done:
+                break
+    ast.fix_missing_locations(tree)
+
+
 def _inline_adjacent_temporaries(tree: ast.AST):
     """`t = E ; S(t)` with t a plain local bound once and read once, in the very next statement (not a while-header), E pure: S(E).
     "Introduce explaining variable" and its inverse are the same program for every rule."""
@@ -1114,6 +1204,8 @@ def normalise_tree(tree: ast.AST, computed: Set[str] = frozenset()) -> int:
     _eliminate_aliases(tree)
     if os.environ.get("PGSTAT_NO_TEMP_INLINE") != "1":
         _propagate_field_reads(tree, computed)      # `computed`: names of properties (their reads run code: never duplicated)
+        if os.environ.get("PGSTAT_NO_ELEMENT_READS") != "1":
+            _propagate_element_reads(tree)
         _inline_adjacent_temporaries(tree)
         _canonical_statements(tree)
     for fn in [n for n in ast.walk(tree) if isinstance(n, (ast.FunctionDef, ast.AsyncFunctionDef))]:
